@@ -10,12 +10,14 @@ MCIntsFull == (0 :> {0, 1, 2, 3}) @@ (1 :> {0, 1, 2, 3})
 MCStrsFull == (0 :> {"", "a", "b", "c"}) @@ (1 :> {"", "a", "b", "c"})
 MCFStrs == {"", "a", "b"}
 MCFStrsSmall == {"a", "b"}
+MCFStrsEmptyA == {"", "a"}
 (* B values: two ordinary ones, and the odd ones NewTagValue permits *)
 MCFBoth == {<<"a", 1>>, <<"b", 2>>, <<"", 1>>, <<"a", 0>>}
 MCFBothSmall == {<<"a", 1>>, <<"b", 2>>}
 (* regexes as the sets they match: one value, two values, the empty string and a value *)
 MCRes == {"ra", "rab", "rea"}
 MCResSmall == {"rab"}
+MCResTwo == {"rab", "rea"}
 MCReSet == ("ra" :> {"a"}) @@ ("rab" :> {"a", "b"}) @@ ("rea" :> {"", "a"})
 MCIntIdx == [i \in 0..3 |-> i]
 MCStrIdx == ("" :> 0) @@ ("a" :> 1) @@ ("b" :> 2) @@ ("c" :> 3)
